@@ -3,6 +3,8 @@ import ColaVerif.Lemmas.UnaryEig
 import ColaVerif.Lemmas.UnaryGood
 import ColaVerif.Lemmas.UnaryBranch
 import ColaVerif.Lemmas.KrylovCompose
+import ColaVerif.Lemmas.UnaryKrylov
+import ColaVerif.Lemmas.UnaryKronN
 import ColaVerif.Lemmas.AnnotSound
 import Mathlib.Analysis.Complex.Basic
 import Mathlib.Analysis.SpecialFunctions.Pow.Real
@@ -40,8 +42,16 @@ conclude as before; `f(A) := V f(D) Vi` is DEFINED from the decomposition and in
 /repo 25c506e, partial `f`), and `C09_arnoldi_path` / `C09_lanczos_path` where the invariance `A Q = Q T` is no longer a
 hypothesis but the theorem of C15 / C14 about the loop models (`Lemmas/KrylovCompose.lean`).  Over `ℂ` with numpy's
 principal branches (`Lemmas/UnaryBranch.lean`): `C09_kron_pow_domain` (+ `_witness`, and `C09_kron_pow_counterexample`
-OUTSIDE the domain — the provisional clause `kron-pow-principal-branch`), `C09_complex_rules`,
+OUTSIDE the domain — the recorded clause `kron-pow-principal-branch`), `C09_complex_rules`,
 `C09_adjoint_cut_counterexample`.
+
+**Round 3 (no unwitnessed contract).**  `KrylovOK` is DERIVED for the Lanczos model from the loop model of C14
+(`C09_krylov_ok_of_lanczos`, `_cap`; `Lemmas/KrylovInst.lean`, `Lemmas/UnaryKrylov.lean`; remaining contract `EighContract`,
+satisfiable by the spectral theorem) and witnessed on `SelfAdjoint([[2,1],[1,2]])` (`C09_krylov_ok_witness`);
+`C09_lanczos_path` is instantiated with every hypothesis discharged and ends in closed statements
+(`C09_lanczos_path_closed`: every `g`, polynomial `g`, `log` through its interpolant); `C09_pow_kron_complex` is
+instantiated (`C09_pow_kron_complex_witness`) and extended to any number of members with the domain condition on partial
+products (`C09_pow_kron_nary`, `_witness`, `C09_pow_kron_positive`; `Lemmas/UnaryKronN.lean`).
 
 **Clause** (a modelled defect of the code, with a witness; the two earlier clauses `krylov-zero-mask`
 and `pow-neg-one-krylov-alg` were repaired in /repo — a523921, 57e439f — and the model follows the repaired
@@ -57,7 +67,7 @@ Named hypotheses that are not defects: `f (conj z) = conj (f z)` on the spectrum
 `C09_real_instances` shows they hold for the real `exp` and `x ↦ x ^ α` on the positive reals.
 -/
 
-open Matrix MatFun Unary
+open Matrix MatFun Unary KrylovCompose
 open scoped Kronecker
 
 namespace C09
@@ -739,3 +749,159 @@ end C09
 
 #print axioms C09.C09_planned_good
 #print axioms C09.C09_action_planned
+
+/-! ## round 3: the Krylov contract derived from the loop model and witnessed; n-ary Kronecker rule -/
+
+namespace C09
+
+section krylovInst
+open Lanczos
+attribute [local instance] Lanczos.exactNum Lanczos.exactVec
+
+/-- **`KrylovOK` is no longer only assumed**: for the Lanczos MODEL (`Unary.lanczosK`: `Lanczos.lanczosExact` of C14 run
+on every identity column, then `eigh` of the returned `T`, then `Q P (g(θ) ⊙ Pᴴ ‖v‖e₁)`) on a Hermitian, diagonalisable
+operand with exhausted runs, `KrylovOK` HOLDS — the factorisation is the one `C09_lanczos_path` uses
+(`KrylovCompose.lanczos_factorisation`, from `Lanczos.single_out`).  Remaining contract: `EighContract eigh` (LAPACK
+`eigh`: unitary `P`, `T P = P diag θ` on Hermitian `T`), satisfiable for every size (`KrylovCompose.eighSpectral_contract`). -/
+theorem C09_krylov_ok_of_lanczos {𝕜 : Type} [RCLike 𝕜] [DecidableEq 𝕜] (eigh : Eigh 𝕜)
+    (contract : EighContract eigh) (S : Set 𝕜) (g : 𝕜 → 𝕜) (A : Op 𝕜)
+    (sq : A.cols = A.rows) (herm : (mat A).IsHermitian) (hdiag : DiagonalisableOn S (mat A))
+    (max_iters : ℕ) (tol : ℝ) (tol_nonneg : 0 ≤ tol) (cap_pos : 1 ≤ min max_iters A.rows)
+    (exhausted : ∀ i : Fin A.rows, (lanczosExact (Matrix.toEuclideanLin (mat A)) A.rows
+      #[EuclideanSpace.single i (1 : 𝕜)] max_iters tol).resid (Matrix.toEuclideanLin (mat A)) 0 = 0) :
+    KrylovOK S g A (lanczosK eigh max_iters tol g A) :=
+  krylovOK_of_lanczos eigh contract S g A sq herm hdiag max_iters tol tol_nonneg cap_pos exhausted
+
+/-- … and with `tol = 0` and a cap `≥ n` nothing is assumed about the runs: they stop at the grade with zero residual
+(`C14_grade`, `C14_grade_exists`) -/
+theorem C09_krylov_ok_of_lanczos_cap {𝕜 : Type} [RCLike 𝕜] [DecidableEq 𝕜] (eigh : Eigh 𝕜)
+    (contract : EighContract eigh) (S : Set 𝕜) (g : 𝕜 → 𝕜) (A : Op 𝕜)
+    (sq : A.cols = A.rows) (herm : (mat A).IsHermitian) (hdiag : DiagonalisableOn S (mat A))
+    (max_iters : ℕ) (hn : 1 ≤ A.rows) (hcap : A.rows ≤ max_iters) :
+    KrylovOK S g A (lanczosK eigh max_iters 0 g A) :=
+  krylovOK_of_lanczos_cap eigh contract S g A sq herm hdiag max_iters hn hcap
+
+/-- **witness of `KrylovOK` / `SoundE` at a Lanczos node, and the tree theorem applied to it**: for
+`A = SelfAdjoint(Dense [[2,1],[1,2]])`, `Lanczos()`, every `f`: the plan is the Lanczos base node, `SoundE` holds with the
+oracle `exKrylovOracle` (= the model run, cap 5, tol 0, `eigh` = spectral theorem), and so the planned operator
+represents `f(A)` (conclusion of `C09_apply_unary_eig`) -/
+theorem C09_krylov_ok_witness (f : ℝ → ℝ) :
+    applyUnary f .lanczos exS = .base .lanczos f exS ∧
+    (applyUnary f .lanczos exS).SoundE exKrylovOracle (Set.Ioi 0) f ∧ exS.rows = 2 ∧
+    IsMatFunOn (Set.Ioi 0) f (mat exS)
+      (MatF.toMatrix exS.rows exS.rows ((applyUnary f .lanczos exS).toOp exKrylovOracle.params).den.f) :=
+  ⟨(exS_krylov_soundE f).1, (exS_krylov_soundE f).2, exS_rows,
+    (C09_apply_unary_eig exKrylovOracle (Set.Ioi 0) f .lanczos exS (exS_krylov_soundE f).2).2⟩
+
+/-- **`C09_lanczos_path` instantiated, closed statement** (`KrylovCompose.lanczosUnaryVec_eq` applies
+`KrylovCompose.lanczos_unary_exact` = `C09_lanczos_path` with every hypothesis discharged): `A = [[2,1],[1,2]]`,
+`v = e₀`, cap `5 > n = 2`, `tol = 0`; the run is exhausted (`C14_grade`), `A = V diag(3,1) V⁻¹`; for EVERY eigensolver
+meeting `EighContract` (one exists: `eighSpectral`) the model's `LanczosUnary(A, g) @ v` is
+* `((g 3 + g 1)/2, (g 3 - g 1)/2)` for every `g`;
+* `p(A) v` for a polynomial `g = p`;
+* for the non-polynomial `g = log`: `p(A) v` with the interpolant `p = (log 3 / 2)(X - 1)` of `log` on the spectrum
+  `{1, 3}`, `= (log 3 / 2, log 3 / 2)`. -/
+theorem C09_lanczos_path_closed (eigh : Eigh ℝ) (contract : EighContract eigh) :
+    EighContract (eighSpectral (𝕜 := ℝ)) ∧
+    (∀ g : ℝ → ℝ, lanczosUnaryVec eigh exM2 5 0 g exv2 = ![(g 3 + g 1) / 2, (g 3 - g 1) / 2]) ∧
+    (∀ p : Polynomial ℝ, lanczosUnaryVec eigh exM2 5 0 (fun x => p.eval x) exv2
+      = Polynomial.aeval exM2 p *ᵥ ![1, 0]) ∧
+    lanczosUnaryVec eigh exM2 5 0 Real.log exv2
+      = Polynomial.aeval exM2 (Polynomial.C (Real.log 3 / 2) * (Polynomial.X - Polynomial.C 1)) *ᵥ ![1, 0] ∧
+    lanczosUnaryVec eigh exM2 5 0 Real.log exv2 = ![Real.log 3 / 2, Real.log 3 / 2] :=
+  ⟨eighSpectral_contract, lanczos_exM2_closed eigh contract, lanczos_exM2_poly eigh contract,
+    (lanczos_exM2_log eigh contract).1, (lanczos_exM2_log eigh contract).2⟩
+
+/-- the model's MATRIX is `g(M)` in the sense of the specification, for every Hermitian diagonalisable `M` (path theorem
+applied to every identity column) -/
+theorem C09_lanczos_model_matFun {𝕜 : Type} [RCLike 𝕜] {n : ℕ} (eigh : Eigh 𝕜) (contract : EighContract eigh)
+    {S : Set 𝕜} (M : Matrix (Fin n) (Fin n) 𝕜) (herm : M.IsHermitian) (hdiag : DiagonalisableOn S M)
+    (max_iters : ℕ) (tol : ℝ) (tol_nonneg : 0 ≤ tol) (cap_pos : 1 ≤ min max_iters n)
+    (exhausted : ∀ i : Fin n, (lanczosExact (Matrix.toEuclideanLin M) n
+      #[EuclideanSpace.single i (1 : 𝕜)] max_iters tol).resid (Matrix.toEuclideanLin M) 0 = 0)
+    (g : 𝕜 → 𝕜) : IsMatFunOn S g M (lanczosUnaryMat eigh M max_iters tol g) :=
+  lanczosUnaryMat_isMatFun eigh contract M herm hdiag max_iters tol tol_nonneg cap_pos exhausted g
+
+end krylovInst
+
+section kronN
+
+/-- **`pow(Kronecker(A₁, …, A_m), α)`, numpy's principal power, ANY number of members**: members whose results
+represent `Aᵢ ** α` on spectrum sets `Sᵢ` (`hM`), non-singular (`h0`), and the domain condition on PARTIAL PRODUCTS
+`hdom : ArgChainOK Ss` — for every member the arguments of its eigenvalues and of the products of eigenvalues of the
+members after it add inside `(-π, π]`.  Then the rule returns the Kronecker product of the members' results and it
+represents the principal `(A₁ ⊗ ⋯ ⊗ A_m) ** α` on the set of products.  (`C09_pow_kron_complex` is `m = 2`.) -/
+theorem C09_pow_kron_nary (P : Params ℂ) (α : ℚ) (alg : Alg) {Ms : List (Op ℂ)} {Ss : List (Set ℂ)}
+    (hM : List.Forall₂ (fun M S => MatFunOK S (cpowQ α) M ((powRule cpowQ α alg M).toOp P)) Ms Ss)
+    (h0 : ∀ S ∈ Ss, (0 : ℂ) ∉ S) (hdom : ArgChainOK Ss) :
+    powRule cpowQ α alg (.kron Ms) = .kron (Ms.map (powRule cpowQ α alg)) ∧
+      IsMatFunOn (prodSet Ss) (cpowQ α) (mat (.kron Ms))
+        (MatF.toMatrix (Op.kron Ms).rows (Op.kron Ms).rows ((powRule cpowQ α alg (.kron Ms)).toOp P).den.f) := by
+  have h := powRule_kronN_ok P cpowQ α alg (by simp [cpowQ]) hM (mulChain_of_argChain α h0 hdom)
+  exact ⟨h.1, h.2.2.2.2⟩
+
+/-- **positive spectra** (every `Sᵢ` on the positive real axis): the domain condition holds for every number of members
+and the result lives on the positive axis again — the Kronecker case of `C09_pow` at `𝕜 = ℂ`, `S = posAxis` (its `hSmul`
+is `posAxis_mul`, its `hmul` is this) -/
+theorem C09_pow_kron_positive (P : Params ℂ) (α : ℚ) (alg : Alg) {Ms : List (Op ℂ)} {Ss : List (Set ℂ)}
+    (hM : List.Forall₂ (fun M S => MatFunOK S (cpowQ α) M ((powRule cpowQ α alg M).toOp P)) Ms Ss)
+    (hpos : ∀ S ∈ Ss, S ⊆ posAxis) :
+    ArgChainOK Ss ∧
+      IsMatFunOn posAxis (cpowQ α) (mat (.kron Ms))
+        (MatF.toMatrix (Op.kron Ms).rows (Op.kron Ms).rows ((powRule cpowQ α alg (.kron Ms)).toOp P).den.f) :=
+  ⟨argChain_posAxis hpos,
+    (C09_pow_kron_nary P α alg hM (fun S hS h => posAxis_zero (hpos S hS h)) (argChain_posAxis hpos)).2.mono
+      (prodSet_posAxis hpos)⟩
+
+/-- **`C09_pow_kron_complex` instantiated**: `sqrt(Kronecker(diag(1+i, 2), diag(1-i, 3)))`, both spectra in the open
+right half plane, every `alg` and oracle -/
+theorem C09_pow_kron_complex_witness (P : Params ℂ) (alg : Alg) :
+    powRule cpowQ (1 / 2) alg (.kron [cdiag (1 + Complex.I) 2, cdiag (1 - Complex.I) 3])
+      = .kron [powRule cpowQ (1 / 2) alg (cdiag (1 + Complex.I) 2),
+          powRule cpowQ (1 / 2) alg (cdiag (1 - Complex.I) 3)] ∧
+    IsMatFunOn {c | ∃ a ∈ rhp, ∃ b ∈ rhp, c = a * b} (cpowQ (1 / 2))
+      (mat (.kron [cdiag (1 + Complex.I) 2, cdiag (1 - Complex.I) 3]))
+      (MatF.toMatrix (Op.kron [cdiag (1 + Complex.I) 2, cdiag (1 - Complex.I) 3]).rows
+        (Op.kron [cdiag (1 + Complex.I) 2, cdiag (1 - Complex.I) 3]).rows
+        ((powRule cpowQ (1 / 2) alg (.kron [cdiag (1 + Complex.I) 2, cdiag (1 - Complex.I) 3])).toOp P).den.f) :=
+  C09_pow_kron_complex P (1 / 2) alg _ _
+    (cdiag_sqrt_ok P alg _ _ (by simp [rhp]) (by simp [rhp]))
+    (cdiag_sqrt_ok P alg _ _ (by simp [rhp]) (by simp [rhp])) rhp_zero rhp_zero argSumOK_rhp
+
+/-- **the n-ary rule instantiated on three factors, two of them non-real**:
+`sqrt(Kronecker(diag(1+i, 2), diag(1-i, 3), diag(2, 3)))` with `Ss = [rhp, rhp, posAxis]` -/
+theorem C09_pow_kron_nary_witness (P : Params ℂ) (alg : Alg) :
+    ArgChainOK [rhp, rhp, posAxis] ∧
+    IsMatFunOn (prodSet [rhp, rhp, posAxis]) (cpowQ (1 / 2))
+      (mat (.kron [cdiag (1 + Complex.I) 2, cdiag (1 - Complex.I) 3, cdiag 2 3]))
+      (MatF.toMatrix (Op.kron [cdiag (1 + Complex.I) 2, cdiag (1 - Complex.I) 3, cdiag 2 3]).rows
+        (Op.kron [cdiag (1 + Complex.I) 2, cdiag (1 - Complex.I) 3, cdiag 2 3]).rows
+        ((powRule cpowQ (1 / 2) alg
+          (.kron [cdiag (1 + Complex.I) 2, cdiag (1 - Complex.I) 3, cdiag 2 3])).toOp P).den.f) :=
+  ⟨argChain_rhp3,
+    (C09_pow_kron_nary P (1 / 2) alg
+      (.cons (cdiag_sqrt_ok P alg _ _ (by simp [rhp]) (by simp [rhp]))
+        (.cons (cdiag_sqrt_ok P alg _ _ (by simp [rhp]) (by simp [rhp]))
+          (.cons (cdiag_sqrt_ok P alg _ _ (by simp [posAxis]) (by simp [posAxis])) .nil)))
+      (by
+        intro S hS
+        simp only [List.mem_cons, List.not_mem_nil, or_false] at hS
+        rcases hS with rfl | rfl | rfl
+        · exact rhp_zero
+        · exact rhp_zero
+        · exact posAxis_zero)
+      argChain_rhp3).2⟩
+
+end kronN
+
+end C09
+
+#print axioms C09.C09_krylov_ok_of_lanczos
+#print axioms C09.C09_krylov_ok_of_lanczos_cap
+#print axioms C09.C09_krylov_ok_witness
+#print axioms C09.C09_lanczos_path_closed
+#print axioms C09.C09_lanczos_model_matFun
+#print axioms C09.C09_pow_kron_nary
+#print axioms C09.C09_pow_kron_positive
+#print axioms C09.C09_pow_kron_complex_witness
+#print axioms C09.C09_pow_kron_nary_witness
